@@ -1036,10 +1036,18 @@ def r2a(ctx: RuleCtx) -> None:
         if isinstance(d, ast.Dict) and d.keys:
             for k, val in dict_entries(d).items():
                 stores.setdefault(k, []).append(val)
+    for st in ast.walk(loops[0]):
+        tg = st.targets[0] if isinstance(st, ast.Assign) and len(st.targets) == 1 else getattr(st, 'target', None) if isinstance(st, ast.AnnAssign) else None
+        if isinstance(tg, ast.Name) and isinstance(getattr(st, 'value', None), (ast.Dict, ast.DictComp)) or \
+                (isinstance(tg, ast.Name) and isinstance(getattr(st, 'value', None), ast.Call) and call_method(st.value) == 'dict'):
+            dvars.add(tg.id)
     app = [c for c in method_calls(loops[0], 'append') if c.args and (norm(c.args[0]) in dvars or isinstance(c.args[0], ast.Dict))]
     rets = [r for r in pf.body if isinstance(r, ast.Return)]
     ok = len(app) == 1 and len(rets) == 1 and recv(app[0]) == norm(rets[0].value)
-    ctx.require(ok, f'{pq}: one entry per serialisation is appended to the result', mod, pq, loops[0], f'{pq} does not append exactly one entry per test to the list it returns')
+    if not ok:
+        # the per-key obligations below are what matters; an unfamiliar way of collecting the entries is not a defect
+        raise Undecided(f'{pq}: cannot see one entry per serialisation being appended to the returned list')
+    ctx.ok(f'{pq}: one entry per serialisation is appended to the result')
     # local aliases of a field (fname = [t.fname] / t.fname)
     lfl = Flow(pf)
 
@@ -1116,14 +1124,26 @@ def r2b(ctx: RuleCtx) -> None:
         raise Undecided(f'{qn}: install data variable not found')
     # entry dicts: the element variable is the loop variable the entry is built from
     entries: T.List[T.Tuple[ast.Dict, str]] = []
+    seen_d: T.Set[int] = set()
+
+    def collect(scope: T.List[ast.AST], ev: str, depth: int) -> None:
+        for root in scope:
+            for x in ast.walk(root):
+                if isinstance(x, ast.Dict) and 'destination' in dict_entries(x) and id(x) not in seen_d:
+                    seen_d.add(id(x))
+                    entries.append((x, ev))
+                elif depth > 0 and isinstance(x, ast.Call) and isinstance(x.func, ast.Name) and mod.has_func(x.func.id) and not x.keywords:
+                    callee = mod.func(x.func.id)
+                    cps = params(callee)
+                    for i, a in enumerate(x.args):
+                        if isinstance(a, ast.Name) and a.id == ev and i < len(cps):
+                            collect(list(callee.body), cps[i], depth - 1)
     for n in ast.walk(fn):
-        if isinstance(n, ast.DictComp) and isinstance(n.value, ast.Dict) and len(n.generators) == 1 and isinstance(n.generators[0].target, ast.Name):
-            entries.append((n.value, n.generators[0].target.id))
-        elif isinstance(n, ast.For) and isinstance(n.target, ast.Name):
-            for st in n.body:
-                if isinstance(st, ast.Assign) and isinstance(st.value, ast.Dict) and 'destination' in dict_entries(st.value):
-                    entries.append((st.value, n.target.id))
-    entries = [(d, v) for d, v in entries if 'destination' in dict_entries(d)]
+        if isinstance(n, ast.DictComp) and len(n.generators) == 1 and isinstance(n.generators[0].target, ast.Name):
+            collect([n.value], n.generators[0].target.id, 2)
+    for n in ast.walk(fn):
+        if isinstance(n, ast.For) and isinstance(n.target, ast.Name):
+            collect(list(n.body), n.target.id, 2)
     ctx.floor('install plan entry shapes', len(entries), 2)
     for d, ev in entries:
         ent = dict_entries(d)
